@@ -1207,3 +1207,69 @@ func (c *Ctx) deferredFuncs(fn *ssa.Function) []*ssa.Function {
 	})
 	return out
 }
+
+// reqTest is one place in fn that decides "this stat can be asked for data":
+// the protocol's predicate is `mode & io/fs.ModeType == 0`, spelled as a call
+// of fileCanRequestData(mode), as os.FileMode(mode).IsRegular(), or as the bit
+// test written out. key is an explorer key whose truth (after neg) means
+// "requestable"; arg is the mode operand.
+type reqTest struct {
+	site ssa.Instruction
+	key  string
+	arg  ssa.Value
+}
+
+func (c *Ctx) modeTypeMask() int64 {
+	var want int64 = -1
+	for _, pk := range c.P.SSA.AllPackages() {
+		if pk.Pkg.Path() == "io/fs" {
+			if k, ok := pk.Pkg.Scope().Lookup("ModeType").(*types.Const); ok {
+				fmt.Sscan(k.Val().ExactString(), &want)
+			}
+		}
+	}
+	return want
+}
+
+// requestableTests lists the tests in fn; pins(maps) returns the assumption
+// "requestable == want" over all of them.
+func (c *Ctx) requestableTests(fn *ssa.Function, x *eng.Explorer) []reqTest {
+	var out []reqTest
+	mask := c.modeTypeMask()
+	eng.Instrs(fn, func(in ssa.Instruction) {
+		switch v := in.(type) {
+		case *ssa.Call:
+			switch c.P.CalleeName(v) {
+			case "fsutil.fileCanRequestData", "(io/fs.FileMode).IsRegular":
+				if len(v.Call.Args) == 1 {
+					out = append(out, reqTest{site: v, key: x.KeyAtEntry(v), arg: v.Call.Args[0]})
+				}
+			}
+		case *ssa.BinOp:
+			if v.Parent() != nil && c.name(v.Parent()) == "fsutil.fileCanRequestData" {
+				return // the predicate's own definition
+			}
+			if operand, m, setWhenTrue, ok := eng.BitTest(v); ok && mask > 0 && m == mask {
+				k := x.KeyAtEntry(v)
+				if setWhenTrue {
+					k = "!" + k // type bits set: not requestable
+				}
+				out = append(out, reqTest{site: v, key: k, arg: operand})
+			}
+		}
+	})
+	return out
+}
+
+// reqPins: the assumption that every requestable test in ts says `want`.
+func reqPins(ts []reqTest, want bool) map[string]bool {
+	as := map[string]bool{}
+	for _, t := range ts {
+		k, w := t.key, want
+		for strings.HasPrefix(k, "!") {
+			k, w = k[1:], !w
+		}
+		as[k] = w
+	}
+	return as
+}
